@@ -52,7 +52,7 @@ def f(self, stream, output):
         if self.no_error:
             stream.error(None)
         else:
-            stream.error('x' % self.tok)
+            stream.error('%r' % self.tok)
     else:
         stream.take(len(self.tok))
         output.append(self.tok)
@@ -65,7 +65,7 @@ def f(self, stream, output):
         if self.no_error:
             stream.error(None)
         else:
-            stream.error('x' % self.tok)
+            stream.error('%r' % self.tok)
     else:
         stream.take(len(self.tok))
 """,
